@@ -21,6 +21,45 @@ def conds_variable_index : List String := [
    "return i"
   ]
 
+def stmts_variable_index : List String := [
+   "{",
+   "n := len(toks)",
+   "var i int",
+   "for _, tok := range v.toks {",
+   "if i == n {",
+   "return -1",
+   "}",
+   "switch tok.typ {",
+   "case tokenSlash:",
+   "if toks[i].typ != tok.typ {",
+   "return -1",
+   "}",
+   "i += 1",
+   "case tokenStar:",
+   "if j := toks[i:].indexAny(tokenSlash | tokenVerb); j != -1 {",
+   "i += j",
+   "} else {",
+   "i = n",
+   "}",
+   "case tokenStarStar:",
+   "if j := toks[i:].index(tokenVerb); j != -1 {",
+   "i += j",
+   "} else {",
+   "i = n",
+   "}",
+   "case tokenLiteral:",
+   "if toks[i].typ != tokenPath || tok.val != toks[i].val {",
+   "return -1",
+   "}",
+   "i += 1",
+   "default:",
+   "panic(\":(\")",
+   "}",
+   "}",
+   "return i",
+   "}"
+  ]
+
 def conds_path_search : List String := [
    "func (*path) search(toks tokens, verb string) (*method, params, error)",
    "if n := len(toks); n <= 1",
@@ -43,6 +82,68 @@ def conds_path_search : List String := [
    "return nil, nil, errNotFound"
   ]
 
+def stmts_path_search : List String := [
+   "{",
+   "if n := len(toks); n <= 1 {",
+   "if m, ok := p.methods[verb]; ok {",
+   "return m, nil, nil",
+   "}",
+   "if m := p.methodAll; m != nil {",
+   "return m, nil, nil",
+   "}",
+   "return nil, nil, errMethod",
+   "}",
+   "segment := toks[0].val + toks[1].val",
+   "if next, ok := p.segments[segment]; ok {",
+   "if m, ps, err := next.search(toks[2:], verb); err == nil {",
+   "return m, ps, nil",
+   "}",
+   "}",
+   "for _, v := range p.variables {",
+   "if toks[0].typ != tokenSlash {",
+   "break",
+   "}",
+   "l := v.index(toks[1:]) + 1",
+   "if l == 0 {",
+   "continue",
+   "}",
+   "m, ps, err := v.next.search(toks[l:], verb)",
+   "if err != nil {",
+   "continue",
+   "}",
+   "fds := m.vars[len(m.vars)-len(ps)-1]",
+   "p := param{fds: fds}",
+   "if len(fds) > 0 {",
+   "capture := []byte(toks[1:l].String())",
+   "p, err = parseParam(fds, capture)",
+   "if err != nil {",
+   "return nil, nil, err",
+   "}",
+   "}",
+   "ps = append(ps, p)",
+   "return m, ps, nil",
+   "}",
+   "return nil, nil, errNotFound",
+   "}"
+  ]
+
+def conds_path_match : List String := [
+   "func (*path) match(route, verb string) (*method, params, error)",
+   "if err := lexPath(l); err != nil",
+   "return nil, nil, status.Errorf(codes.NotFound, \"not found: %v\", err)",
+   "return p.search(l.tokens(), verb)"
+  ]
+
+def stmts_path_match : List String := [
+   "{",
+   "l := &lexer{input: route}",
+   "if err := lexPath(l); err != nil {",
+   "return nil, nil, status.Errorf(codes.NotFound, \"not found: %v\", err)",
+   "}",
+   "return p.search(l.tokens(), verb)",
+   "}"
+  ]
+
 def conds_path_addVariable : List String := [
    "func (*path) addVariable(toks tokens) *variable",
    "if v, ok := p.findVariable(name); ok",
@@ -50,11 +151,40 @@ def conds_path_addVariable : List String := [
    "return v"
   ]
 
+def stmts_path_addVariable : List String := [
+   "{",
+   "name := toks.String()",
+   "if v, ok := p.findVariable(name); ok {",
+   "return v",
+   "}",
+   "v := &variable{",
+   "name: name,",
+   "toks: toks,",
+   "next: newPath(),",
+   "}",
+   "p.variables = append(p.variables, v)",
+   "sort.Sort(p.variables)",
+   "return v",
+   "}"
+  ]
+
 def conds_path_addPath : List String := [
    "func (*path) addPath(parent, value token) *path",
    "if next, ok := p.segments[val]; ok",
    "return next",
    "return next"
+  ]
+
+def stmts_path_addPath : List String := [
+   "{",
+   "val := parent.val + value.val",
+   "if next, ok := p.segments[val]; ok {",
+   "return next",
+   "}",
+   "next := newPath()",
+   "p.segments[val] = next",
+   "return next",
+   "}"
   ]
 
 def conds_lexTemplate : List String := [
@@ -78,6 +208,34 @@ def conds_lexTemplate : List String := [
    "return l.errUnexpected()"
   ]
 
+def stmts_lexTemplate : List String := [
+   "{",
+   "if r := l.next(); r != '/' {",
+   "return l.errUnexpected()",
+   "}",
+   "if err := l.emit(tokenSlash); err != nil {",
+   "return err",
+   "}",
+   "if err := lexSegments(l); err != nil {",
+   "return err",
+   "}",
+   "switch r := l.next(); r {",
+   "case ':':",
+   "if err := l.emit(tokenVerb); err != nil {",
+   "return err",
+   "}",
+   "return lexVerb(l)",
+   "case eof:",
+   "if err := l.emit(tokenEOF); err != nil {",
+   "return err",
+   "}",
+   "return nil",
+   "default:",
+   "return l.errUnexpected()",
+   "}",
+   "}"
+  ]
+
 def conds_lexSegments : List String := [
    "func lexSegments(l *lexer) error",
    "for",
@@ -87,6 +245,23 @@ def conds_lexSegments : List String := [
    "return nil",
    "if err := l.emit(tokenSlash); err != nil",
    "return err"
+  ]
+
+def stmts_lexSegments : List String := [
+   "{",
+   "for {",
+   "if err := lexSegment(l); err != nil {",
+   "return err",
+   "}",
+   "if r := l.next(); r != '/' {",
+   "l.backup()",
+   "return nil",
+   "}",
+   "if err := l.emit(tokenSlash); err != nil {",
+   "return err",
+   "}",
+   "}",
+   "}"
   ]
 
 def conds_lexSegment : List String := [
@@ -102,6 +277,29 @@ def conds_lexSegment : List String := [
    "return lexVariable(l)",
    "default",
    "return l.errUnexpected()"
+  ]
+
+def stmts_lexSegment : List String := [
+   "{",
+   "r := l.next()",
+   "switch {",
+   "case unicode.IsLetter(r):",
+   "l.backup()",
+   "return lexLiteral(l)",
+   "case r == '*':",
+   "rn := l.next()",
+   "if rn == '*' {",
+   "return l.emit(tokenStarStar)",
+   "}",
+   "l.backup()",
+   "return l.emit(tokenStar)",
+   "case r == '{':",
+   "l.backup()",
+   "return lexVariable(l)",
+   "default:",
+   "return l.errUnexpected()",
+   "}",
+   "}"
   ]
 
 def conds_lexVariable : List String := [
@@ -122,6 +320,35 @@ def conds_lexVariable : List String := [
    "return l.emit(tokenVariableEnd)"
   ]
 
+def stmts_lexVariable : List String := [
+   "{",
+   "r := l.next()",
+   "if r != '{' {",
+   "return l.errUnexpected()",
+   "}",
+   "if err := l.emit(tokenVariableStart); err != nil {",
+   "return err",
+   "}",
+   "if err := lexFieldPath(l); err != nil {",
+   "return err",
+   "}",
+   "r = l.next()",
+   "if r == '=' {",
+   "if err := l.emit(tokenEqual); err != nil {",
+   "return err",
+   "}",
+   "if err := lexSegments(l); err != nil {",
+   "return err",
+   "}",
+   "r = l.next()",
+   "}",
+   "if r != '}' {",
+   "return l.errUnexpected()",
+   "}",
+   "return l.emit(tokenVariableEnd)",
+   "}"
+  ]
+
 def conds_lexFieldPath : List String := [
    "func lexFieldPath(l *lexer) error",
    "if err := lexIdent(l); err != nil",
@@ -135,6 +362,26 @@ def conds_lexFieldPath : List String := [
    "return err"
   ]
 
+def stmts_lexFieldPath : List String := [
+   "{",
+   "if err := lexIdent(l); err != nil {",
+   "return err",
+   "}",
+   "for {",
+   "if r := l.next(); r != '.' {",
+   "l.backup()",
+   "return nil",
+   "}",
+   "if err := l.emit(tokenDot); err != nil {",
+   "return err",
+   "}",
+   "if err := lexIdent(l); err != nil {",
+   "return err",
+   "}",
+   "}",
+   "}"
+  ]
+
 def conds_lexVerb : List String := [
    "func lexVerb(l *lexer) error",
    "if err := lexLiteral(l); err != nil",
@@ -144,11 +391,32 @@ def conds_lexVerb : List String := [
    "return l.errUnexpected()"
   ]
 
+def stmts_lexVerb : List String := [
+   "{",
+   "if err := lexLiteral(l); err != nil {",
+   "return err",
+   "}",
+   "if r := l.next(); r == eof {",
+   "return l.emit(tokenEOF)",
+   "}",
+   "return l.errUnexpected()",
+   "}"
+  ]
+
 def conds_lexIdent : List String := [
    "func lexIdent(l *lexer) error",
    "if i := l.acceptRun(isIdent); i == 0",
    "return l.errShort()",
    "return l.emit(tokenIdent)"
+  ]
+
+def stmts_lexIdent : List String := [
+   "{",
+   "if i := l.acceptRun(isIdent); i == 0 {",
+   "return l.errShort()",
+   "}",
+   "return l.emit(tokenIdent)",
+   "}"
   ]
 
 def conds_lexLiteral : List String := [
@@ -158,9 +426,24 @@ def conds_lexLiteral : List String := [
    "return l.emit(tokenLiteral)"
   ]
 
+def stmts_lexLiteral : List String := [
+   "{",
+   "if i := l.acceptRun(isLiteral); i == 0 {",
+   "return l.errShort()",
+   "}",
+   "return l.emit(tokenLiteral)",
+   "}"
+  ]
+
 def conds_isIdent : List String := [
    "func isIdent(r rune) bool",
    "return unicode.IsLetter(r) || unicode.IsNumber(r) || r == '_' || r == '-'"
+  ]
+
+def stmts_isIdent : List String := [
+   "{",
+   "return unicode.IsLetter(r) || unicode.IsNumber(r) || r == '_' || r == '-'",
+   "}"
   ]
 
 def conds_isLiteral : List String := [
@@ -168,9 +451,163 @@ def conds_isLiteral : List String := [
    "return isIdent(r) || r == '.'"
   ]
 
+def stmts_isLiteral : List String := [
+   "{",
+   "return isIdent(r) || r == '.'",
+   "}"
+  ]
+
 def conds_isPath : List String := [
    "func isPath(r rune) bool",
    "return isLiteral(r) || r == '~' || r == '!' || r == '$' || r == '&' || r == '\\'' || r == '(' || r == ')' || r == '*' || r == '+' || r == ',' || r == ';' || r == '=' || r == '@'"
+  ]
+
+def stmts_isPath : List String := [
+   "{",
+   "return isLiteral(r) || r == '~' || r == '!' || r == '$' || r == '&' ||",
+   "r == '\\'' || r == '(' || r == ')' || r == '*' || r == '+' ||",
+   "r == ',' || r == ';' || r == '=' || r == '@'",
+   "}"
+  ]
+
+def conds_Mux_match : List String := [
+   "<missing>"
+  ]
+
+def stmts_Mux_match : List String := [
+   "<missing>"
+  ]
+
+def conds_Mux_ServeHTTP : List String := [
+   "func (*Mux) ServeHTTP(w http.ResponseWriter, r *http.Request)",
+   "if strings.HasPrefix( r.Header.Get(\"Content-Type\"), \"application/grpc-web\", )",
+   "return",
+   "if r.ProtoMajor == 2 && strings.HasPrefix( r.Header.Get(\"Content-Type\"), \"application/grpc\", )",
+   "return",
+   "if !strings.HasPrefix(r.URL.Path, \"/\")",
+   "if err := m.serveHTTP(w, r); err != nil"
+  ]
+
+def stmts_Mux_ServeHTTP : List String := [
+   "{",
+   "if strings.HasPrefix(",
+   "r.Header.Get(\"Content-Type\"), \"application/grpc-web\",",
+   ") {",
+   "m.serveGRPCWeb(w, r)",
+   "return",
+   "}",
+   "if r.ProtoMajor == 2 && strings.HasPrefix(",
+   "r.Header.Get(\"Content-Type\"), \"application/grpc\",",
+   ") {",
+   "m.serveGRPC(w, r)",
+   "return",
+   "}",
+   "if !strings.HasPrefix(r.URL.Path, \"/\") {",
+   "r.URL.Path = \"/\" + r.URL.Path",
+   "}",
+   "r.URL.Path = strings.TrimSuffix(r.URL.Path, \"/\")",
+   "if err := m.serveHTTP(w, r); err != nil {",
+   "m.encError(w, r, err)",
+   "}",
+   "}"
+  ]
+
+def conds_path_clone : List String := [
+   "func (*path) clone() *path",
+   "if p == nil",
+   "return pc",
+   "range p.segments",
+   "range p.variables",
+   "range p.methods",
+   "return pc"
+  ]
+
+def stmts_path_clone : List String := [
+   "{",
+   "pc := newPath()",
+   "if p == nil {",
+   "return pc",
+   "}",
+   "for k, s := range p.segments {",
+   "pc.segments[k] = s.clone()",
+   "}",
+   "pc.variables = make(variables, len(p.variables))",
+   "for i, v := range p.variables {",
+   "pc.variables[i] = &variable{",
+   "name: v.name,",
+   "toks: v.toks,",
+   "next: v.next.clone(),",
+   "}",
+   "}",
+   "for k, m := range p.methods {",
+   "pc.methods[k] = m",
+   "}",
+   "pc.methodAll = p.methodAll",
+   "return pc",
+   "}"
+  ]
+
+def conds_lexPath : List String := [
+   "func lexPath(l *lexer) error",
+   "for",
+   "switch r",
+   "case '/'",
+   "if err := l.emit(tokenSlash); err != nil",
+   "return err",
+   "if err := lexPathSegment(l); err != nil",
+   "return err",
+   "case ':'",
+   "if err := l.emit(tokenVerb); err != nil",
+   "return err",
+   "if err := lexPathSegment(l); err != nil",
+   "return err",
+   "case eof",
+   "return l.emit(tokenEOF)",
+   "default",
+   "return l.errUnexpected()"
+  ]
+
+def stmts_lexPath : List String := [
+   "{",
+   "for {",
+   "switch r := l.next(); r {",
+   "case '/':",
+   "if err := l.emit(tokenSlash); err != nil {",
+   "return err",
+   "}",
+   "if err := lexPathSegment(l); err != nil {",
+   "return err",
+   "}",
+   "case ':':",
+   "if err := l.emit(tokenVerb); err != nil {",
+   "return err",
+   "}",
+   "if err := lexPathSegment(l); err != nil {",
+   "return err",
+   "}",
+   "case eof:",
+   "return l.emit(tokenEOF)",
+   "default:",
+   "return l.errUnexpected()",
+   "}",
+   "}",
+   "}"
+  ]
+
+def conds_lexPathSegment : List String := [
+   "func lexPathSegment(l *lexer) error",
+   "if i := l.acceptRun(isPath); i == 0",
+   "return l.errShort()",
+   "return l.emit(tokenPath)"
+  ]
+
+def stmts_lexPathSegment : List String := [
+   "{",
+   "if i := l.acceptRun(isPath); i == 0 {",
+   "return l.errShort()",
+   "}",
+   "return l.emit(tokenPath)",
+   "}"
   ]
 
 end Larking.Expected.C02
